@@ -38,6 +38,7 @@ Section Load.
 Context {R : Type} (ops : rops R).
 
 Definition lbl (s : string) : bytes := bs s.
+Arguments lbl s%string.
 
 (* uvarintFromBuf *)
 Definition uvarint_from_buf (r : R) : outcome (N * R) :=
